@@ -885,12 +885,26 @@ func (f *FuncVC) mergeVals(conds []string, vals []*Val, base string) *Val {
 		}
 		return r
 	case KFunc:
+		diff := false
 		for _, v := range vals[1:] {
 			if v.Fn != v0.Fn || v.T != v0.T {
-				return &Val{K: KUnsupported, Ty: v0.Ty, Why: "merge of distinct function values"}
+				diff = true
 			}
 		}
-		return v0
+		if !diff {
+			return v0
+		}
+		// distinct function values: the identity term is kept (so nil tests
+		// work), the static callee is forgotten (a call through the merged
+		// value is a dynamic call)
+		var ts []string
+		for _, v := range vals {
+			if v.T == "" {
+				return &Val{K: KUnsupported, Ty: v0.Ty, Why: "merge of distinct function values"}
+			}
+			ts = append(ts, v.T)
+		}
+		return &Val{K: KFunc, Ty: v0.Ty, T: f.sc.define(base, "Int", iteChain(conds, ts))}
 	case KPtr:
 		if v0.P != nil {
 			for _, v := range vals[1:] {
